@@ -326,10 +326,25 @@ Definition init_layer_slices (g : graph) : res graph :=
 
 Inductive p2alg := LongestPath | NetworkSimplex.
 
+(* AssignLayers: runs the layering algorithm only (sets Node.Layer); a single node is left alone *)
+Definition assign_layers (alg : p2alg) (p : nsparams) (g : graph) : res graph :=
+  if Nat.eqb (length (g_N g)) 1 then Ok g else
+  match alg with
+  | LongestPath => exec_longest_path g
+  | NetworkSimplex => exec_network_simplex p g
+  end.
+
+(* Process = AssignLayers followed by building the layer slices *)
 Definition phase2 (alg : p2alg) (p : nsparams) (g : graph) : res graph :=
-  do g <- (if Nat.eqb (length (g_N g)) 1 then Ok g else
-           match alg with
-           | LongestPath => exec_longest_path g
-           | NetworkSimplex => exec_network_simplex p g
-           end);
+  do g <- assign_layers alg p g;
   init_layer_slices g.
+
+Lemma phase2_unfold : forall alg p g,
+  phase2 alg p g =
+  (do g <- (if Nat.eqb (length (g_N g)) 1 then Ok g else
+            match alg with
+            | LongestPath => exec_longest_path g
+            | NetworkSimplex => exec_network_simplex p g
+            end);
+   init_layer_slices g).
+Proof. reflexivity. Qed.
